@@ -43,7 +43,7 @@ fn on_panic(ctx: &mut Ctx, what: &str, loc: &str, msg: &str, detail: Value) {
     }
 }
 
-fn run_on<C: DateRoll>(ctx: &mut Ctx, cal: &C, spec: &CalSpec, starts: &[i64], rng: &mut Rng) {
+fn run_on<C: DateRoll + PyCalLayer>(ctx: &mut Ctx, cal: &C, spec: &CalSpec, starts: &[i64], rng: &mut Rng) {
     let lo = *starts.iter().min().unwrap() - PAD;
     let hi = *starts.iter().max().unwrap() + PAD;
     // eligibility comes from the calendar's DESCRIPTION (week mask, holiday list, members, settlement members),
@@ -88,6 +88,20 @@ fn run_on<C: DateRoll>(ctx: &mut Ctx, cal: &C, spec: &CalSpec, starts: &[i64], r
                 ctx.eval(1);
                 ctx.asserted(1);
                 let case = |extra: Value| json!({"calendar": sd, "start": fmt_z(z), "start_is_business_day": bus, "n": n, "settlement": settlement, "detail": extra});
+                // the Python-facing methods of the calendar's own class: the same answers (and the same refusals)
+                if (n + z) % 3 == 0 {
+                    let mm = MODS[((n + 128) as usize + z.rem_euclid(5) as usize) % 5];
+                    let py = guarded(|| (cal.py_add_bus_days(dt, n8, settlement), cal.py_lag(dt, n8, settlement), cal.py_add_days(dt, n8, mm, settlement), cal.py_predicates(dt)));
+                    let core = guarded(|| (cal.add_bus_days(&dt, n8, settlement).map_err(|_| ()), cal.lag(&dt, n8, settlement), cal.add_days(&dt, n8, &mm, settlement), (cal.is_bus_day(&dt), cal.is_non_bus_day(&dt), cal.is_settlement(&dt))));
+                    if let (Caught::Ok((Some(a), Some(b), Some(c), Some(d))), Caught::Ok((ca, cb, cc, cd))) = (py, core) {
+                        ctx.asserted(4);
+                        ctx.class("python-layer:add_bus_days-lag-add_days-predicates");
+                        if a != ca || b != cb || c != Ok(cc) || d != cd {
+                            ctx.violation("C05|python-layer", case(json!({"add_bus_days (python, core)": [format!("{:?}", a), format!("{:?}", ca)], "lag": [b.to_string(), cb.to_string()], "add_days": [format!("{:?}", c), cc.to_string()], "is_bus_day / is_non_bus_day / is_settlement": [format!("{:?}", d), format!("{:?}", cd)]})));
+                            return;
+                        }
+                    }
+                }
                 let res = match got {
                     Caught::Ok(r) => r,
                     Caught::Panic { loc, msg } => {
@@ -252,6 +266,15 @@ fn run_on<C: DateRoll>(ctx: &mut Ctx, cal: &C, spec: &CalSpec, starts: &[i64], r
                 ctx.asserted(1);
                 let want: Vec<i64> = (z..=end).filter(|c| bits.is_bus(*c)).collect();
                 ctx.class(if span == 0 || end == z { "bus_date_range:single" } else { "bus_date_range:span" });
+                if let (Some(py), Caught::Ok(core)) = (cal.py_bus_date_range(dt, to_ndt(end)), &got) {
+                    ctx.asserted(2);
+                    ctx.class("python-layer:date-ranges");
+                    let pc = cal.py_cal_date_range(dt, to_ndt(end)).and_then(|r| r.ok()).map(|v| v.len());
+                    if &py != core || pc != Some((end - z + 1) as usize) {
+                        ctx.violation("C05|python-layer|date-ranges", json!({"calendar": sd, "start": fmt_z(z), "end": fmt_z(end), "bus_date_range python_len": py.as_ref().map(|v| v.len()).ok(), "core_len": core.as_ref().map(|v| v.len()).ok(), "cal_date_range python_len": pc}));
+                        return;
+                    }
+                }
                 match got {
                     Caught::Ok(Ok(v)) if v.iter().map(from_ndt).collect::<Vec<_>>() == want => {}
                     Caught::Ok(other) => {
@@ -296,6 +319,8 @@ impl Prop for C05 {
         v.push("calendar:inside-CalType-container".to_string());
         v.push("holiday-list:not-chronological".to_string());
         v.push("calendar:named-with-settlement-inside-CalType-container".to_string());
+        v.push("python-layer:add_bus_days-lag-add_days-predicates".to_string());
+        v.push("python-layer:date-ranges".to_string());
         v
     }
     fn min_evaluations(&self, tier: Tier) -> u64 {
